@@ -146,6 +146,9 @@ impl Drop for Server {
 /// One client per worker thread; three servers under three key sets.
 pub struct Oracle {
     servers: Vec<Server>,
+    /// answers already obtained in this worker (the same project is queried again for every
+    /// fault placement and every history step)
+    cache: std::collections::BTreeMap<String, Ans>,
     pub queries: u64,
     pub unstable: u64,
 }
@@ -153,17 +156,29 @@ pub struct Oracle {
 impl Oracle {
     pub fn new(key_base: u64) -> Oracle {
         let servers = (0..3).map(|i| Server::spawn(crate::prng::mix(key_base.wrapping_add(i * 7919)) | 1)).collect();
-        Oracle { servers, queries: 0, unstable: 0 }
+        Oracle { servers, cache: Default::default(), queries: 0, unstable: 0 }
     }
     pub fn run(&mut self, req: &Req) -> Ans {
         self.queries += 1;
         let line = serde_json::to_string(req).unwrap();
+        if let Some(a) = self.cache.get(&line) {
+            return a.clone();
+        }
+        let t_dbg = std::time::Instant::now();
         let a: Vec<Ans> = self.servers.iter_mut().map(|s| s.ask(&line)).collect();
-        if a[0] == a[1] && a[1] == a[2] {
+        if t_dbg.elapsed().as_millis() > 150 && std::env::var("VERIF_DEBUG").is_ok() {
+            eprintln!("DEBUG slow oracle query {} ms: {}", t_dbg.elapsed().as_millis(), &line.chars().take(600).collect::<String>());
+        }
+        let ans = if a[0] == a[1] && a[1] == a[2] {
             a[0].clone()
         } else {
             self.unstable += 1;
             Ans::Unstable
+        };
+        if self.cache.len() > 4000 {
+            self.cache.clear();
         }
+        self.cache.insert(line, ans.clone());
+        ans
     }
 }
